@@ -25,11 +25,11 @@ type w11Ctx struct {
 	err  error // written before close(done)
 }
 
-func newW11Ctx() *w11Ctx                          { return &w11Ctx{done: make(chan struct{})} }
-func (c *w11Ctx) Deadline() (time.Time, bool)     { return time.Time{}, false }
-func (c *w11Ctx) Done() <-chan struct{}           { return c.done }
-func (c *w11Ctx) Value(key any) any               { return nil }
-func (c *w11Ctx) cancel(err error)                { c.err = err; close(c.done) }
+func newW11Ctx() *w11Ctx                      { return &w11Ctx{done: make(chan struct{})} }
+func (c *w11Ctx) Deadline() (time.Time, bool) { return time.Time{}, false }
+func (c *w11Ctx) Done() <-chan struct{}       { return c.done }
+func (c *w11Ctx) Value(key any) any           { return nil }
+func (c *w11Ctx) cancel(err error)            { c.err = err; close(c.done) }
 func (c *w11Ctx) Err() error {
 	select {
 	case <-c.done:
@@ -62,7 +62,7 @@ type w11Task struct {
 	cancelled bool
 	ticket    int
 	relocking bool // was parked at the hook point, released in this step
-	enq       int // start order
+	enq       int  // start order
 	// semaphore model
 	doomed   bool // n > size at call time: waits for ctx and fails (documented)
 	inQueue  bool // enqueued in the model FIFO
@@ -89,6 +89,9 @@ type w11Base struct {
 	tasks   []*w11Task
 	tickets map[int]bool
 	step    int
+	// run-level swarm switches (drawn once per run, inherited by its episodes)
+	adjustRun bool // queue episodes may call AdjustCapacity
+	zeroRun   bool // semaphore episodes may use weight 0
 }
 
 func (b *w11Base) armed(name string) bool { return b.arm && b.hooks[name] }
@@ -211,6 +214,10 @@ func w11Run(r *verifsim.Run) {
 		maxExtra = 100
 	}
 	extra := c.Range(0, maxExtra, "extra_episodes")
+	adjustRun := c.Intn(3, "adjust_capacity_run") == 2
+	zeroRun := c.Intn(8, "zero_weight_run") == 7
+	r.Config["adjust_capacity"] = adjustRun
+	r.Config["zero_weights"] = zeroRun
 	r.Config["mode"] = []string{"queue", "semaphore", "both"}[mode]
 	r.Config["extra_episodes"] = extra
 	ep := 0
@@ -218,7 +225,7 @@ func w11Run(r *verifsim.Run) {
 		if r.Failed() {
 			return
 		}
-		b := &w11Base{r: r, c: c, hooks: map[string]bool{}, tickets: map[int]bool{}}
+		b := &w11Base{r: r, c: c, hooks: map[string]bool{}, tickets: map[int]bool{}, adjustRun: adjustRun, zeroRun: zeroRun}
 		b.pts = verifsim.NewPoints(b.armed)
 		defer b.pts.Close()
 		if sem {
